@@ -150,7 +150,37 @@ def rule_position(ctx, f, b):
     # guards: Range::contains for descent, Eq for the leaf
     contains = [bi for bi, t in F.calls(b) if last_seg(F.callee_name(t)) == "contains" and "Range" in F.callee_name(t) + t.get("callee_full", "")]
     rec = [bi for bi, t in F.calls(b) if F.callee_name(t) == b["id"]]
-    okd = bool(contains) and all(any(cfg.dominates(c, r) for c in contains) for r in rec)
+    # the same test written out: `pos <= page_nr && page_nr < end`.  Each comparison is normalised to the outcome that means "inside"
+    def role(op):
+        l = F.op_local(op)
+        if l is None:
+            return None
+        if fl.derives_from_arg(l, 3, passthrough=()) and not any(a[0] in ("binop", "call") for a in fl.origins(l, passthrough=())):
+            return "index"
+        if l in pos_locals or any(x in pos_locals for x in [F.op_place(d[2][1])[0] for d in fl.defs.get(l, []) if d[0] == "assign" and d[2][0] == "use" and F.op_place(d[2][1])]):
+            return "pos"
+        if any((a[0] == "binop" and a[1].startswith("Add")) or (a[0] == "call" and last_seg(a[1]) in ("checked_add", "saturating_add")) for a in fl.origins(l)):
+            return "end"
+        return None
+    written_out = {}        # block -> local holding the outcome that is true when the index is on the inner side of that bound
+    for i, j, st in F.stmts(b):
+        if i in body and st[0] == "assign" and st[2][0] == "binop" and st[2][1] in ("Lt", "Le", "Gt", "Ge"):
+            ra, rb = role(st[2][2]), role(st[2][3])
+            op = st[2][1]
+            inner = None
+            if (ra, rb) == ("pos", "index"):
+                inner = {"Le": True, "Gt": False}.get(op)
+            elif (ra, rb) == ("index", "pos"):
+                inner = {"Ge": True, "Lt": False}.get(op)
+            elif (ra, rb) == ("index", "end"):
+                inner = {"Lt": True, "Ge": False}.get(op)
+            elif (ra, rb) == ("end", "index"):
+                inner = {"Gt": True, "Le": False}.get(op)
+            if inner is not None:
+                written_out[i] = (st[1][0], inner, "lower" if "pos" in (ra, rb) else "upper")
+    both_bounds = {k for k in ("lower", "upper") if any(v[2] == k for v in written_out.values())} == {"lower", "upper"}
+    okd = (bool(contains) and all(any(cfg.dominates(c, r) for c in contains) for r in rec)) or \
+        (both_bounds and all(any(cfg.dominates(i, r) for i, v in written_out.items() if v[2] == k) for r in rec for k in ("lower", "upper")))
     ctx.check(okd, "C07-G1", "page_limited#descent-guard", "the descent into a subtree is not guarded by a range test on the running position", b["span"], detail="(pos .. pos + count).contains(page_nr)")
     # ... on the side of the test where the index lies inside the subtree, into the kid that was just loaded, with the index made relative to it
     def sides(test_bb, dest_local):
@@ -172,6 +202,13 @@ def rule_position(ctx, f, b):
             if cfg.dominates(c, r) and b["blocks"][c]["term"].get("dest"):
                 sd = sides(c, b["blocks"][c]["term"]["dest"][0])
                 pol = pol or (sd is not None and r in sd[0] and r not in sd[1])
+        if not contains and both_bounds:
+            pol = True
+            for i, (dl, inner, which) in written_out.items():
+                if cfg.dominates(i, r):
+                    sd = sides(i, dl)
+                    good, badside = (sd[0], sd[1]) if (sd is not None and inner) else ((sd[1], sd[0]) if sd is not None else (set(), set()))
+                    pol = pol and sd is not None and r in good and r not in badside
         ctx.check(pol, "C07-G1", "page_limited#descent-side", "the descent into a subtree sits on the side of the range test where the index is NOT in the subtree (or on both sides)",
                   t["span"], detail="descent only when (pos .. end).contains(page_nr)")
         rl = arg_local(t, 0)
